@@ -1,3 +1,5 @@
+import FrappyProofs.Lemmas.Klass
 import FrappyProofs.Lemmas.Logging
 import FrappyProofs.Lemmas.Rotate
+import FrappyProofs.Props.C09
 import FrappyProofs.Props.C20
